@@ -47,7 +47,7 @@ Inductive node :=
 
 Definition path := list nat.
 Inductive ev := ECall (p : path) | ESave (p : path) (img : node).
-Inductive exc := EUser | EReady | ELocked | EChild.
+Inductive exc := EUser | EIntr | EReady | ELocked | EChild.     (* EIntr: KeyboardInterrupt raised inside a node function *)
 Inductive vres := ROk | RExc (e : exc) | RCut.
 Inductive lres := LGo (errs : bool) | LAbort (e : exc) | LCut.
 
@@ -55,9 +55,16 @@ Inductive lres := LGo (errs : bool) | LAbort (e : exc) | LCut.
 Definition MODULUS : Z := 1000003.
 Fixpoint lin_sum (i : Z) (args : list Z) : Z :=
   match args with [] => 0 | a :: r => (i * a + lin_sum (i + 1) r)%Z end.
-Inductive res := RVal (z : Z) | RRaise.
+Inductive res := RVal (z : Z) | RRaise (e : exc).
+(* harness/nodes.py chk: -7, -8, -9 raise ordinary exceptions (of particular classes), then -6 is a Ctrl-C landing in
+   the body (a KeyboardInterrupt), any other negative argument an ordinary exception *)
 Definition chk (c : Z) (args : list Z) : res :=
-  if existsb (fun a => (a <? 0)%Z) args then RRaise else RVal ((c + lin_sum 1 args) mod MODULUS)%Z.
+  if existsb (fun a => (a <? 0)%Z) args then
+    if existsb (fun a => (a =? -7)%Z || (a =? -8)%Z || (a =? -9)%Z) args then RRaise EUser
+    else if existsb (fun a => (a =? -6)%Z) args then RRaise EIntr else RRaise EUser
+  else RVal ((c + lin_sum 1 args) mod MODULUS)%Z.
+(* an exception the signal loop's `except Exception` does not collect *)
+Definition is_intr (e : exc) : bool := match e with EIntr => true | _ => false end.
 
 (* ---- small helpers ------------------------------------------------------------------- *)
 Definition st_of (n : node) : nst := match n with Leaf _ _ st => st | Macro _ _ st _ => st end.
@@ -158,8 +165,9 @@ Section Loop.
           | RExc e =>
               (* the running children of a broken process and the starting nodes are run directly by
                  _on_run: their exception leaves at once; triggered children are run by the signal loop,
-                 which collects their exceptions *)
-              if resume || match ups_of (inp_of kid) with [] => true | _ => false end
+                 which collects their exceptions -- those that are an Exception: a KeyboardInterrupt
+                 passes through the loop and leaves at once as well *)
+              if resume || is_intr e || match ups_of (inp_of kid) with [] => true | _ => false end
               then (kid' :: map R rest, e1, LAbort e)
               else let '(rest', e2, lr) := loopF (S idx) rest (os ++ [out_of kid']) (oks ++ [false]) true in
                    (kid' :: rest', e1 ++ e2, lr)
@@ -183,10 +191,10 @@ Fixpoint visit (cut : option path) (p : path) (outs pu : list (option Z)) (n : n
       | Some args =>
           match chk k args with
           | RVal v => (Leaf k i (st_ok (vals i) (Some v)), [ECall p], if cut_here cut p then RCut else ROk)
-          | RRaise =>
+          | RRaise e =>     (* Runnable._run: except (Exception, KeyboardInterrupt): the same epilogue for both *)
               let n' := Leaf k i (st_failed st (outv st)) in
               if cut_here cut p then (n', [ECall p], RCut)
-              else (n', ECall p :: (if is_root p then [ESave p n'] else []), RExc EUser)
+              else (n', ECall p :: (if is_root p then [ESave p n'] else []), RExc e)
           end
       end
   | Macro i0 r st kids =>
@@ -349,7 +357,7 @@ Fixpoint obs_node (n : node) : obs :=
 Definition obs_res (r : vres) : obs :=
   match r with
   | ROk => OS "ok" | RCut => OS "cut"
-  | RExc EUser => OS "UserExc" | RExc EReady => OS "ReadinessError"
+  | RExc EUser => OS "UserExc" | RExc EIntr => OS "KeyboardInterrupt" | RExc EReady => OS "ReadinessError"
   | RExc ELocked => OS "RuntimeError" | RExc EChild => OS "FailedChildError"
   end.
 
